@@ -1,8 +1,8 @@
 #!/bin/sh
-# Build the framework offline: Lean model + proofs + driver, Rust harness (release).
+# Build the framework offline: Lean model + proofs + driver, Rust harness (release and debug).
 set -e
 cd "$(dirname "$0")"
 (cd lean && lake build)
 [ -f harness/Cargo.lock ] || cp /repo/Cargo.lock harness/Cargo.lock
-(cd harness && CARGO_NET_OFFLINE=true cargo build --release --offline)
+(cd harness && CARGO_NET_OFFLINE=true cargo build --release --offline && CARGO_NET_OFFLINE=true cargo build --offline)
 mkdir -p work replays evidence
